@@ -701,6 +701,9 @@ def gen_c08_net(R, tier, rejecting=False):
     node = lambda: R.randrange(n)  # noqa: E731
     missing = lambda: n + R.randrange(3)  # noqa: E731
     p_bad = 0.45 if rejecting else 0.12
+    # 5% of the histories leave the quantifier (place_agent of an agent that is already in the space: it ends up in two node
+    # lists): model-vs-code tie only, the oracle does not apply
+    oq = (not rejecting) and R.random() < 0.05
     if rejecting:
         for a in range(nag):
             if R.random() < 0.7:
@@ -711,8 +714,9 @@ def gen_c08_net(R, tier, rejecting=False):
         unplaced = [i for i, a in enumerate(impl.agents) if a.pos is None]
         k = R.random()
         mut = True
-        if k < 0.2 and unplaced:
-            b.add(f"nplace {R.choice(unplaced)} {missing() if R.random() < p_bad else node()}")
+        if k < 0.2 and (unplaced or (oq and placed)):
+            a = R.choice(placed) if (oq and placed and (not unplaced or R.random() < 0.6)) else R.choice(unplaced)
+            b.add(f"nplace {a} {missing() if R.random() < p_bad else node()}")
         elif k < 0.5 and (placed or unplaced):
             a = R.choice(unplaced) if unplaced and (not placed or R.random() < p_bad / 2) else R.choice(placed)
             if placed and a in placed and R.random() < 0.15:
@@ -740,7 +744,7 @@ def gen_c08_net(R, tier, rejecting=False):
                 b.add(f"{R.choice(['nnbrs', 'nnbrs', 'nnbhd'])} {node()} {int(R.random() < 0.5)} {r}")
         if mut:
             b.add("ndump")
-    return b.scenario()
+    return b.scenario({"oq": True} if oq else None)
 
 
 RADII = [1, 1, 1, 2, 2, 3, 4, 7]
@@ -751,8 +755,12 @@ def gen_c09_grid(R, tier):
     hexk = kind.startswith("hex")
     w, h = R.randint(1, 7), R.randint(1, 7)
     torus = R.random() < 0.5
+    oq = False
     if hexk and torus and w % 2:
-        w += 1
+        if R.random() < 0.12:
+            oq = True  # odd-width hex torus: no wrapped hexagonal tiling exists (outside the quantifier) — model-vs-code tie only
+        else:
+            w += 1
     multi = kind in ("multi", "hexmulti")
     nag = R.randint(0, 8)
     b = Builder(grid_header(kind, w, h, torus, R.random() < 0.2, nag))
@@ -809,7 +817,7 @@ def gen_c09_grid(R, tier):
             raw = R.random() < 0.2  # arbitrary integers: Python aliasing of -size..-1, IndexError beyond
             cs = [(any_int(R, w), any_int(R, h)) if raw else (R.randrange(w), R.randrange(h)) for _ in range(n)]
             b.add(f"{R.choice(['clc', 'iclc'])} {n} " + " ".join(f"{x} {y}" for x, y in cs))
-    return b.scenario()
+    return b.scenario({"oq": True} if oq else None)
 
 
 def gen_c09_net(R, tier):
@@ -864,6 +872,32 @@ def exhaustive_c09(max_side, radii, hex_radii):
                                             qs.append(f"nbhd {x} {y} {moore} {ic} {r}")
                     lines += qs + qs[::-7]
                     out.append(core.Scenario(lines, {"exhaustive": True}))
+    return out
+
+
+def exhaustive_c09_net(max_n):
+    """every simple undirected graph on up to max_n labelled nodes (edges added in lexicographic order, and once more reversed and
+    flipped, which changes G.neighbors order), every node, both include_center values, every radius 0..n; three agents on the
+    first nodes so that get_neighbors is exercised too — one scenario per node count and edge order"""
+    import itertools
+
+    out = []
+    for n in range(1, max_n + 1):
+        cand = [(a, c) for a in range(n) for c in range(a + 1, n)]
+        for flip in (False, True):
+            lines_all = []
+            for mask in range(1 << len(cand)):
+                es = [e for i, e in enumerate(cand) if mask >> i & 1]
+                if flip:
+                    es = [(c, a) for a, c in reversed(es)]
+                lines = [f"scenario net {n} 3 {len(es)} " + " ".join(f"{a} {c}" for a, c in es)]
+                lines += [f"nplace {a} {a % n}" for a in range(3)]
+                for v, ic, r in itertools.product(range(n), (0, 1), range(n + 1)):
+                    lines.append(f"nnbhd {v} {ic} {r}")
+                    if r <= 2:
+                        lines.append(f"nnbrs {v} {ic} {r}")
+                lines_all.append(lines)
+            out += [core.Scenario(ls, {"exhaustive": True}) for ls in lines_all]
     return out
 
 
@@ -1004,10 +1038,10 @@ def oracle_c08_net(sc, obs, H):
 
 def oracle_c08(sc, obs):
     H = _hdr(sc)
-    if H["type"] == "net":
-        return oracle_c08_net(sc, obs, H)
     if sc.meta.get("oq"):
         return []
+    if H["type"] == "net":
+        return oracle_c08_net(sc, obs, H)
     tr = sc.meta.get("trace") or []
     bad = []
     w, h, torus, multi = H["w"], H["h"], H["torus"], H["multi"]
@@ -1258,6 +1292,8 @@ def orth_ball(w, h, torus, pos, moore, r):
 
 def oracle_c09(sc, obs):
     H = _hdr(sc)
+    if sc.meta.get("oq"):
+        return []
     tr = sc.meta.get("trace") or []
     bad = []
     if H["type"] == "net":
